@@ -122,6 +122,58 @@ theorem tagset_text_roundtrip_refuted_for_borrowed_keys : ¬ tagset_text_roundtr
 /-- the same text is accepted once keys may be owned (the repair proposed for D10) -/
 example : (decodeTags false "{\"a\\\"b\":\"v\"}").toOption = some [⟨false, "a\"b", "v"⟩] := by decide +kernel
 
+/-- The JSON reader inverts the JSON writer on every serialised tag object (any number of members,
+    scalar and array values of any length, any Unicode in keys and values: quotes, backslashes,
+    control characters written as `\n \r \t \b \f \u00XX`, astral characters): every member comes
+    back, in order, each key flagged with whether its spelling needed an escape. -/
+theorem tagset_reader_inverts_writer (o : TagObj) :
+    readTagObj (renderObj o) = some (o.map fun m => (⟨m.1, m.1.toList.any needsEscape⟩, m.2)) :=
+  Lemmas.read_render o
+
+/-- … and it holds with owned keys (the repaired deserialiser): for EVERY non-empty tag list of the
+    domain — any Unicode in names and values (quotes, backslashes, control and astral characters),
+    repeated names, both kinds — the text written by `askar_entry_list_get_tags` is accepted by
+    `askar_session_update` and denotes the same multiset of tags. -/
+theorem tagset_text_roundtrip_owned : tagset_text_roundtrip false := by
+  intro tags hne hdom
+  exact Lemmas.text_roundtrip false tags hne hdom (fun h => by cases h)
+
+/-- the current source: once its deserialiser reads owned keys (flag read from the source), the
+    full-strength text round-trip holds for it -/
+theorem tagset_text_roundtrip_current (h : keysBorrowedOnly = false) : tagset_text_roundtrip keysBorrowedOnly := by
+  rw [h]; exact tagset_text_roundtrip_owned
+
+/-- Either way the verdict on the current tree is decided by the flag read from the source
+    (compiles for both values of the flag). -/
+theorem tagset_text_roundtrip_status :
+    (keysBorrowedOnly = false ∧ tagset_text_roundtrip keysBorrowedOnly) ∨
+    (keysBorrowedOnly = true ∧ ¬ tagset_text_roundtrip keysBorrowedOnly) := by
+  cases hf : keysBorrowedOnly with
+  | false => exact Or.inl ⟨rfl, tagset_text_roundtrip_owned⟩
+  | true => exact Or.inr ⟨rfl, tagset_text_roundtrip_refuted_for_borrowed_keys⟩
+
+/-- With borrowed keys (the pinned tree, D10) the round-trip still holds on the part of the domain
+    where no tag *name* needs an escape (no quote, backslash or control character in a name;
+    values are unrestricted). -/
+theorem tagset_text_roundtrip_borrowed_partial (tags : List Tag) (hne : tags ≠ [])
+    (hdom : ∀ t ∈ tags, t.plain = false → match t.name.toList with | [] => False | c :: _ => c ≠ '~')
+    (hplain : ∀ t ∈ tags, t.name.toList.all (fun c => !needsEscape c) = true) :
+    ∃ text, encodeTags tags = some (some text) ∧ ∃ out, decodeTags true text = .ok out ∧ out.Perm tags :=
+  Lemmas.text_roundtrip true tags hne hdom (fun _ => hplain)
+
+/-- for either deserialiser, stated on the flag of the current source (one statement covering both) -/
+theorem tagset_text_roundtrip_partial (tags : List Tag) (hne : tags ≠ [])
+    (hdom : ∀ t ∈ tags, t.plain = false → match t.name.toList with | [] => False | c :: _ => c ≠ '~')
+    (hplain : keysBorrowedOnly = true → ∀ t ∈ tags, t.name.toList.all (fun c => !needsEscape c) = true) :
+    ∃ text, encodeTags tags = some (some text) ∧ ∃ out, decodeTags keysBorrowedOnly text = .ok out ∧ out.Perm tags :=
+  Lemmas.text_roundtrip keysBorrowedOnly tags hne hdom hplain
+
+/-- non-vacuity: a name with a quote, a backslash, a control and an astral character; a repeated name -/
+example : encodeTags [⟨true, "q\"\\\x01😀", "v\n"⟩, ⟨true, "q\"\\\x01😀", "w"⟩]
+    = some (some "{\"~q\\\"\\\\\\u0001😀\":[\"v\\n\",\"w\"]}") := by decide +kernel
+example : (decodeTags false "{\"~q\\\"\\\\\\u0001😀\":[\"v\\n\",\"w\"]}").toOption
+    = some [⟨true, "q\"\\\x01😀", "v\n"⟩, ⟨true, "q\"\\\x01😀", "w"⟩] := by decide +kernel
+
 /-- Exactly-once callbacks: for every entry point shape (mandatory or optional callback, early
     `order_by` rejection, any decoding outcome) and every fate of the spawned task (completed with
     any result, never spawned because the runtime is gone, cancelled at shutdown, panicked):
